@@ -1,0 +1,101 @@
+//go:build verif
+
+package json
+
+// Contracts for the hvc verifier (/verif). Comment-only.
+//
+// C17, JSON lexer: for every byte sequence the scanner terminates without a
+// panic, and lexing loses nothing: every token carries exactly the input bytes
+// of its range, tokens follow each other in source order without overlap, and
+// only blanks lie between them. Byte offsets are counted from the start
+// position handed to scan.
+
+//@ spec blank(c) = c == 32 || c == 10 || c == 13 || c == 9
+
+// The three multi-byte scanners split the buffer at one point: token = the
+// bytes before it, rest = the bytes from it on; the byte position moves by the
+// token length.
+//@ spec splitAt(buf, tok, rest, start, end) = len(tok) <= len(buf) && sameslice(tok, buf[:len(tok)]) && sameslice(rest, buf[len(tok):]) && end.Pos.Byte == start.Pos.Byte + len(tok) && end.Filename == start.Filename
+
+//@ spec numStart(c) = c == 45 || c == 43 || c == 46 || (c >= 48 && c <= 57)
+//@ spec alpha(c) = (c >= 97 && c <= 122) || (c >= 65 && c <= 90)
+//@ func scanNumber(buf []byte, start pos) (tok []byte, rest []byte, end pos)
+//@   ensures split: splitAt(buf, tok, rest, start, end)
+//@   ensures first: (len(buf) > 0 && numStart(buf[0])) ==> len(tok) >= 1
+//@   loop "for i = 0; i < len(buf); i++"
+//@     invariant at: 0 <= i && i <= len(buf) && p.Pos.Byte == start.Pos.Byte + i && p.Filename == start.Filename
+//@     decreases len(buf) - i
+
+//@ func scanKeyword(buf []byte, start pos) (tok []byte, rest []byte, end pos)
+//@   ensures split: splitAt(buf, tok, rest, start, end)
+//@   ensures first: (len(buf) > 0 && alpha(buf[0])) ==> len(tok) >= 1
+//@   loop "for i = 0; i < len(buf); i++"
+//@     invariant at: 0 <= i && i <= len(buf) && p.Pos.Byte == start.Pos.Byte + i && p.Filename == start.Filename
+//@     decreases len(buf) - i
+
+// A string token starts at the opening quote (the caller saw it), so it is never empty.
+//@ func scanString(buf []byte, start pos) (tok []byte, rest []byte, end pos)
+//@   requires quote: len(buf) >= 1
+//@   ensures split: splitAt(buf, tok, rest, start, end) && len(tok) >= 1
+//@   loop "for i < len(buf)"
+//@     invariant at: 1 <= i && i <= len(buf) && p.Pos.Byte == start.Pos.Byte + i && p.Filename == start.Filename
+//@     decreases len(buf) - i
+
+// Only blanks are skipped, and all of them.
+//@ func skipWhitespace(buf []byte, start pos) (rest []byte, end pos)
+//@   ensures suffix: len(rest) <= len(buf) && sameslice(rest, buf[len(buf)-len(rest):]) && end.Pos.Byte == start.Pos.Byte + (len(buf) - len(rest)) && end.Filename == start.Filename
+//@   ensures blanks: forall(j, 0, len(buf) - len(rest), blank(buf[j]))
+//@   ensures all:    len(rest) > 0 ==> !blank(rest[0])
+//@   loop "for i = 0; i < len(buf); i++"
+//@     invariant at: 0 <= i && i <= len(buf) && p.Pos.Byte == start.Pos.Byte + i && p.Filename == start.Filename && forall(j, 0, i, blank(buf[j]))
+//@     decreases len(buf) - i
+
+//@ func byteCanStartNumber(b byte) (r bool)
+//@   pure
+//@   ensures def: r == numStart(b)
+//@ func byteCanStartKeyword(b byte) (r bool)
+//@   pure
+//@   ensures def: r == alpha(b)
+//@ func isAlphabetical(b byte) (r bool)
+//@   pure
+//@   ensures def: r == alpha(b)
+//@ func posRange(start pos, end pos) (r hcl.Range)
+//@   pure
+//@   ensures def: r.Start.Byte == start.Pos.Byte && r.End.Byte == end.Pos.Byte && r.Filename == start.Filename
+//@ func (p *pos) Range(byteLen int, charLen int) (r hcl.Range)
+//@   requires nonnil: p != nil
+//@   pure
+//@   ensures def: r.Start.Byte == p.Pos.Byte && r.End.Byte == p.Pos.Byte + byteLen && r.Filename == p.Filename
+
+// scan: `consumed` input bytes lie before the current position; every token
+// appended covers exactly the input bytes of its range, starts where the
+// scanner stood after skipping blanks, and the scanner then stands at its end.
+//@ spec consumed(p, start0) = p.Pos.Byte - start0.Pos.Byte
+//@ spec covers(t, buf0, start0) = len(t.Bytes) == t.Range.End.Byte - t.Range.Start.Byte && t.Range.Start.Byte >= start0.Pos.Byte && t.Range.End.Byte - start0.Pos.Byte <= len(buf0) && sameslice(t.Bytes, buf0[t.Range.Start.Byte - start0.Pos.Byte : t.Range.End.Byte - start0.Pos.Byte])
+//@ func scan(buf []byte, start pos) (tokens []token)
+//   (endsEOF is defined with the peeker below)
+//@   ensures eof: endsEOF(tokens)
+//@   guard-call tok: "append" len(arg(1)) == 1 && ((arg(1)[0].Type == tokenEOF && len(arg(1)[0].Bytes) == 0 && arg(1)[0].Range.Start.Byte == arg(1)[0].Range.End.Byte) || (arg(1)[0].Type != tokenEOF && covers(arg(1)[0], old(buf), old(start)) && len(arg(1)[0].Bytes) >= 1))
+//@   loop "for"
+//@     invariant at: consumed(p, old(start)) >= 0 && consumed(p, old(start)) <= len(old(buf)) && sameslice(buf, old(buf)[consumed(p, old(start)):]) && p.Filename == old(start).Filename
+//@     invariant own: cap(tokens) == 0 || fresh(arrayof(tokens))
+//@     invariant last: len(tokens) > 0 ==> tokens[len(tokens)-1].Range.End.Byte == p.Pos.Byte
+//@     decreases len(buf)
+
+// The token list always ends with EOF, and the peeker never moves past it:
+// wfPeeker is the representation invariant every parser function relies on.
+//@ spec endsEOF(ts) = len(ts) >= 1 && ts[len(ts)-1].Type == tokenEOF
+//@ spec wfPeeker(p) = p != nil && 0 <= p.pos && p.pos < len(p.tokens) && endsEOF(p.tokens)
+//@ func newPeeker(tokens []token) (p *peeker)
+//@   requires eof: endsEOF(tokens)
+//@   ensures new: p != nil && fresh(p) && sameslice(p.tokens, tokens) && p.pos == 0 && wfPeeker(p)
+//@ func (p *peeker) Peek() (t token)
+//@   requires wf: wfPeeker(p)
+//@   pure
+//@   ensures cur: t.Type == p.tokens[p.pos].Type
+//@ func (p *peeker) Read() (t token)
+//@   requires wf: wfPeeker(p)
+//@   modifies p.pos
+//@   ensures cur:  t.Type == old(p.tokens[p.pos].Type)
+//@   ensures step: p.pos == old(p.pos) + ite(t.Type == tokenEOF, 0, 1)
+//@   ensures wf:   wfPeeker(p)
